@@ -1024,6 +1024,17 @@ fn extract_fn(file: &syn::File, src: &Src, it: &Item) -> ItemOut {
     {
         let mut sub = Ctx { src, item: it, edits: vec![], seq: 0, loops: vec![], closures: 0, sites: BTreeMap::new(), errors: vec![], anchors_found: vec![], ptr_base: BTreeMap::new(), ptr_elem: BTreeMap::new(), ptr_cursor: BTreeMap::new(), ptr_end: BTreeMap::new(), tmp_n: 0, ptr_pos: BTreeMap::new(), hoisted: vec![], in_impl: false, inline_checks: vec![], anchor_occ: BTreeMap::new(), self_iter_types: vec![] };
         for inp in &sig.inputs { sub.visit_fn_arg(inp); }
+        // E0b: a wildcard parameter pattern `_: T` (rejected by Verus) gets a fresh unused name
+        let mut wn = 0;
+        for inp in &sig.inputs {
+            if let syn::FnArg::Typed(pt) = inp {
+                if let syn::Pat::Wild(w) = &*pt.pat {
+                    let (a, b) = src.range(w.span());
+                    wn += 1;
+                    sub.edits.push(Edit { start: a, end: b, text: format!("_wild{wn}"), rule: "E0b wildcard parameter named".into(), seq: 1000 + wn });
+                }
+            }
+        }
         let mut errs = vec![];
         sigtxt.push_str(&norm(&apply_edits(src, ps, pe, sub.edits.clone(), &mut errs)));
         for e in &sub.edits { out.edits.push(EditOut { rule: e.rule.clone(), line: src.line_of(e.start), from: src.text[e.start..e.end].to_string(), to: e.text.clone() }); }
@@ -1253,6 +1264,15 @@ fn extract_struct(file: &syn::File, src: &Src, it: &Item) -> ItemOut {
 fn inventory(file: &syn::File, src: &Src, it: &Item) -> ItemOut {
     // every `unsafe` block / unsafe fn in the file with its enclosing function
     struct Inv<'a> { src: &'a Src, cur: Vec<String>, rows: Vec<BTreeMap<String, String>>, in_test: bool }
+    impl<'a> Inv<'a> {
+        fn fn_row(&mut self, sp: proc_macro2::Span) {
+            let mut row = BTreeMap::new();
+            row.insert("kind".to_string(), "fn".to_string());
+            row.insert("fn".to_string(), self.cur.join("::"));
+            row.insert("line".to_string(), self.src.line_of(self.src.range(sp).0).to_string());
+            self.rows.push(row);
+        }
+    }
     impl<'a, 'ast> Visit<'ast> for Inv<'a> {
         fn visit_item_mod(&mut self, m: &'ast syn::ItemMod) {
             let is_test = m.attrs.iter().any(|a| norm(self.src.slice(a.span())).contains("cfg(test)"));
@@ -1268,16 +1288,33 @@ fn inventory(file: &syn::File, src: &Src, it: &Item) -> ItemOut {
         }
         fn visit_impl_item_fn(&mut self, f: &'ast syn::ImplItemFn) {
             self.cur.push(f.sig.ident.to_string());
+            self.fn_row(f.sig.span());
             syn::visit::visit_impl_item_fn(self, f);
             self.cur.pop();
         }
-        fn visit_item_fn(&mut self, f: &'ast syn::ItemFn) {
+        fn visit_item_trait(&mut self, t: &'ast syn::ItemTrait) {
+            self.cur.push(format!("trait {}", t.ident));
+            syn::visit::visit_item_trait(self, t);
+            self.cur.pop();
+        }
+        fn visit_trait_item_fn(&mut self, f: &'ast syn::TraitItemFn) {
+            if f.default.is_none() { return; }
             self.cur.push(f.sig.ident.to_string());
+            self.fn_row(f.sig.span());
+            syn::visit::visit_trait_item_fn(self, f);
+            self.cur.pop();
+        }
+        fn visit_item_fn(&mut self, f: &'ast syn::ItemFn) {
+            let is_test = f.attrs.iter().any(|a| { let t = norm(self.src.slice(a.span())); t.contains("cfg(test)") || t == "#[test]" });
+            if is_test { return; }
+            self.cur.push(f.sig.ident.to_string());
+            self.fn_row(f.sig.span());
             syn::visit::visit_item_fn(self, f);
             self.cur.pop();
         }
         fn visit_expr_unsafe(&mut self, u: &'ast syn::ExprUnsafe) {
             let mut row = BTreeMap::new();
+            row.insert("kind".to_string(), "unsafe".to_string());
             row.insert("fn".to_string(), self.cur.join("::"));
             row.insert("line".to_string(), self.src.line_of(self.src.range(u.span()).0).to_string());
             row.insert("text".to_string(), norm(self.src.slice(u.span())).chars().take(120).collect());
